@@ -21,8 +21,9 @@ OPS = ("bm", "bm_big")
 LEAN = ["Ymq.Props.C19BM"]
 AUDIT = "Ymq.Audit.C19BM"
 THEOREMS = ["Ymq.C19BM." + t for t in (
-    "bm_invariant bm_sound bm_big_sound bm_no_panic_iff bm_no_panic bm_complete bm_panic_empty bm_panic_single_term "
-    "bm_panic_zero_constant_term bm_empty_iff bm_montgomery_ops bm_big_ops").split()]
+    "bm_montgomery_ops bm_big_ops bm_invariant_init bm_invariant bm_sound bm_big_sound bm_window_not_from_degree "
+    "bm_degree_bound_tight bm_no_panic_iff bm_big_no_panic_iff bm_empty_iff bm_no_panic bm_big_no_panic "
+    "bm_no_panic_recurrence bm_panic_empty bm_panic_single_term bm_panic_zero_constant_term").split()]
 W = 1 << 64
 LIM64 = 1 << 63          # the Montgomery variant is proved for odd primes below 2^63
 LIM256 = 1 << 255        # the big variant is proved for primes below 2^244 (inv_mod); subp needs p < 2^255
@@ -450,5 +451,21 @@ UNMODELLED = ["the callers of berlekamp_massey (SparseMat::_detp4 reads charpoly
               "(<u64,u128>, <u128,U256>, <BUint<3>,BUint<6>>) differ only in the overflow bound of subp",
               "release-profile wrapping outside the proved domain (p >= 2^63: the u128 sum of dotp and mg_redc results above p) is not modelled; "
               "the model follows the checked profile there"]
-HYPOTHESES = ["bm_big theorems: the hypothesis InvOK p := for all 0 < a < p, inv_mod::<4>(a, p) = Ok(x) with x < p and a*x = 1 (mod p) is discharged "
-              "by inv_mod_no_panic / inv_mod_spec of property C09 for p < 2^244 (theorem bm_big_ops); no hypothesis is left in the statements"]
+HYPOTHESES = []   # none: the closures are discharged by mgRedc_spec / mgMul_spec / mgInv_spec (C07, C08) and inv_mod_no_panic / inv_mod_spec (C09)
+
+# --- the module can also be run on its own: ./check C19_BM (evidence/C19_BM.json) ---
+PID = "C19_BM"
+GEN = []
+PROFILES = ["release", "chk"]
+TIMEOUT = 30.0
+RULE = RULE_BM
+CLAIM = ("Lean theorems about the executable model of berlekamp_massey / berlekamp_massey_big (checked profile), for every odd prime p < 2^63 "
+         "(resp. prime p < 2^244) and every sequence of reduced residues: the loop invariant u*S = f, v*S = g (mod x^n) with the degree bookkeeping is "
+         "established by the initialisation and preserved by every turn, and no turn reaches a panic site (bm_invariant_init, bm_invariant); a "
+         "returned non-empty vector has constant term 1, degree <= n - n/2 and annihilates the sequence on n/2 <= i < n (bm_sound, bm_big_sound); the "
+         "function panics exactly on the empty sequence, on [a,0,...,0] and on sequences with two non-zero terms that have no connection polynomial "
+         "on that window (bm_no_panic_iff), returns the empty vector exactly on zero sequences and monomials a*x^k, k >= 1 (bm_empty_iff), and hence "
+         "never panics on a sequence with two non-zero terms satisfying a recurrence of order L <= n/2 (bm_no_panic_recurrence).")
+LEVEL_NOTE = ("The theorems are about the model; the K stream (model = real code, both profiles inside the domain) ties it to the code. Outside the "
+              "domain (p >= 2^63) the release build returns wrong polynomials silently (finding bm-64bit-prime-wrong-in-release).")
+TECHNIQUE = "Lean 4 proof about a hand model + differential correspondence check + spec oracle"
